@@ -21,6 +21,7 @@ pd.set_option('display.width', None)
 
 RCU_pt_util_counter_name = "PT Active"
 RCU_pt_util_counter_unit = "Percent"
+RCU_pt_util_counter_tmp_dur = "kernel_dur"
 
 # for table fingerprint: include only event names that match this regex
 _fprint_event_filter = r'^.*'
@@ -643,13 +644,15 @@ class MultiRCUUtilizationContext(TwoPhaseWithBarrierContext, PipelineContextTool
                 "pid": event["pid"],
                 "name": RCU_pt_util_counter_name,
                 "args": {RCU_pt_util_counter_unit: utilization},
-                "dur": event["dur"]  # temporary duration in cycles- remove before viz
+                # temporary duration for the statistics - removed there (not named "dur": sorting must not treat
+                # the counter as a slice, or it overtakes the reset-to-zero sample of a kernel that ends at this ts)
+                RCU_pt_util_counter_tmp_dur: event["dur"]
             }]
         if not self.stats_enabled:
             # nobody downstream removes the temporary duration or the zero-valued helper counter
             if not utilization > 0.0:
                 return []
-            revents[0].pop("dur")
+            revents[0].pop(RCU_pt_util_counter_tmp_dur)
         if utilization > 0.0:   # add a reset-to-zero event only if util is non-zero
             revents.append({
                 "ph": "C",
